@@ -300,7 +300,16 @@ def _rules(ck, prog, cfg):
                 ch = iter_chain(ff, t["args"][0])
                 names = [n for n, _ in ch]
                 n7 += 1
-                cut = [n for n in names if n in ("take", "skip", "step_by", "nth", "truncate")]
+                # a positional cut counts when it is the per-round limit, or when what is cut is the key map itself
+                src_t = ch[-1][1] if ch else None
+                from_map = src_t is not None and is_callee(src_t, r"HashMap::<.*>::(iter|keys|values)$", r"HashMap<.*> as std::iter::IntoIterator>::into_iter$")
+                cut = []
+                for nm, ct in ch:
+                    if nm not in ("take", "skip", "step_by", "nth", "truncate"):
+                        continue
+                    lim = src_of_operand(ff, ct["args"][1], through_calls=TRANSPARENT) if len(ct["args"]) > 1 else None
+                    if from_map or (lim is not None and "max_keys_per_sync" in lim.fields):
+                        cut.append(nm)
                 ck.check(not cut, "R18.7", "%s:limit-before-filter%s" % (f.id.replace("replication::anti_entropy::", ""), _tag(cfg)),
                          "the key map is cut by %s before the divergent-bucket filter sees it: keys beyond the cut are never examined, so a "
                          "divergent key stored behind it is never shipped and the replicas' digests never become equal" % cut,
